@@ -26,6 +26,9 @@ func VerifC13(args []string) {
 			conf.CompileOptions[ReportEvent] = true
 		case "debug":
 			conf.CompileOptions[Debug] = true
+		case "both":
+			conf.CompileOptions[ReportEvent] = true
+			conf.CompileOptions[Debug] = true
 		}
 		e, err := Compile(conf, src)
 		vfAssert(err == nil && e != nil, "well-formed expression compiles under "+opts)
